@@ -716,6 +716,20 @@ theorem C13_cull {α : Type} (ap : AP) (ts : Nat) (data : List (Nat × α)) (v :
         next => cases hn
   next => cases h
 
+/-- **Culling a continuous collection**: the same holds when the source is continuous – the kept
+    pairs are exactly the (step, value) pairs of the period whose minute of the year is a multiple of
+    `60 / timestep`, in order – for every target timestep, whether or not it divides the current
+    one (6 → 4 keeps :00 and :30 only; there is no "every n-th item" shortcut). -/
+theorem C13_cull_continuous {α : Type} (ap : AP) (ts : Nat) (vals : List α) (v : Validated (Nat × α))
+    (h : cullContinuous ap ts vals = .ok v) (hts : ts ≠ 0) :
+    v.data = (ap.moys.zip vals).filter (fun p => p.1 % (60 / ts) = 0) ∧
+    (∀ p, p ∈ v.data ↔ p ∈ ap.moys.zip vals ∧ p.1 % (60 / ts) = 0) ∧ v.ap.timestep = ts := by
+  obtain ⟨h1, -, h3, h4, -⟩ := C13_cull ap ts (ap.moys.zip vals) v h hts
+  exact ⟨h1, h3, h4⟩
+
+#guard (cullContinuous ⟨7, 14, 0, 7, 14, 23, 6, false⟩ 4 (List.range 144)).toOption.map
+  (fun v => (v.data.length, v.data.all fun p => p.1 % 15 = 0)) = some (48, true)
+
 #guard (cull ⟨6, 21, 0, 6, 21, 23, 4, false⟩ 2 [(246240, 1), (246255, 2), (246270, 3), (246300, 4)]).toOption.map
   (fun v => (v.ap.timestep, v.data)) = some (2, [(246240, 1), (246270, 3), (246300, 4)])
 
